@@ -25,7 +25,11 @@ import (
 // guards), and say so.
 
 // Alias maps a Desc glob to a short variable name.
-type Alias struct{ Glob, Name string }
+type Alias struct {
+	Glob, Name string
+	// Match, when set, identifies the variable by SSA value identity instead of by description.
+	Match func(ssa.Value) bool
+}
 
 // Lin is a linear form over named variables.
 type Lin struct {
@@ -74,7 +78,7 @@ func (l Lin) String() string {
 
 func aliasName(aliases []Alias, desc string) string {
 	for _, a := range aliases {
-		if Glob(a.Glob, desc) {
+		if a.Match == nil && Glob(a.Glob, desc) {
 			return a.Name
 		}
 	}
@@ -129,6 +133,12 @@ func (p *Program) LinOf(v ssa.Value, aliases []Alias) Lin {
 			}
 
 			return Lin{Coef: map[string]int64{b.Name() + "(" + strings.Join(parts, ",") + ")": 1}}
+		}
+	}
+
+	for _, a := range aliases {
+		if a.Match != nil && a.Match(v) {
+			return Lin{Coef: map[string]int64{a.Name: 1}}
 		}
 	}
 
